@@ -119,7 +119,13 @@ func extractTopLevelFields(blob []byte) ([]rawField, error) {
 			return nil, wrapInvalid(err)
 		}
 		endPos := total - r.Len()
+		if err := validateOpValue(blob[startPos:endPos]); err != nil {
+			return nil, err
+		}
 		out = append(out, rawField{key: key, value: blob[startPos:endPos]})
+	}
+	if r.Len() != 0 {
+		return nil, fmt.Errorf("%w: %d trailing bytes", ErrInvalidMsgpack, r.Len())
 	}
 	return out, nil
 }
